@@ -962,6 +962,15 @@ func (in *inliner) stmt(s ast.Stmt, within *types.Func) ([]ast.Stmt, bool) {
 	case *ast.ExprStmt:
 		if call := singleCall(x.X); call != nil {
 			if fd, f := in.inlinable(call, within); fd != nil {
+				if in.tailOnly[call] {
+					// a procedure with early returns: `if c { …; return }; rest` is `if c { … } else { rest }`
+					if f.Type().(*types.Signature).Results().Len() == 0 {
+						if repl, ok := in.expandMulti(&ast.AssignStmt{TokPos: call.Pos(), Tok: token.ASSIGN}, call, fd, f); ok {
+							return repl, true
+						}
+					}
+					return []ast.Stmt{s}, false
+				}
 				if pre, res, ok := in.expand(call, fd, f, false); ok {
 					// results are discarded; keep a returned call for its effects
 					for _, r := range res {
@@ -2222,6 +2231,9 @@ func (in *inliner) expandMulti(as *ast.AssignStmt, call *ast.CallExpr, fd *ast.F
 		}
 		for _, l := range as.Lhs {
 			lhs = append(lhs, lhsCopier.node(l).(ast.Expr))
+		}
+		if len(lhs) == 0 {
+			return &ast.EmptyStmt{Semicolon: r.Pos(), Implicit: true}
 		}
 		return &ast.AssignStmt{Lhs: lhs, TokPos: r.Pos(), Tok: as.Tok, Rhs: res}
 	}
